@@ -169,6 +169,26 @@ def e_det(c):
     else:
         ya = pd(T=0, i_dark=0.0, include_noise="ase-only")
         check(not np.any(ya.noise), "ase-terms-nonzero-without-optical-noise", "")
+    # exact noise scales (conditional clauses): IF a thermal-only / shot-only realisation (with T, i_dark chosen to isolate it) is proportional to
+    # the harness-side filtered unit Gaussians that numpy's global generator yields under this seed, the constant must be the documented sigma
+    # times R_load exactly. When the premise fails (draws consumed differently) the clause is skipped and counted.
+    np.random.seed(1)
+    zf = lpf_ref(np.random.normal(0, 1.0, N), BW, fs)
+    scale_cls = []
+    for nm_, kw_, sig2 in (("thermal", dict(include_noise="thermal-only", i_dark=0.0), 4 * KB * T * 10 ** (Fn / 10) * (fs / 2) / R),
+                           ("shot", dict(include_noise="shot-only", i_dark=idark, T=0),
+                            2 * QE * (r * float(np.mean(psum)) + (r * float(np.sum(np.mean(np.abs(nz) ** 2, axis=-1))) if nz is not None else 0.0) + idark) * (fs / 2))):
+        if sig2 <= 0:
+            continue
+        nn_ = pd(**kw_).noise - (kw_["i_dark"] * R)
+        kk = float(np.dot(zf, nn_) / np.dot(zf, zf))
+        if kk != 0 and np.max(np.abs(nn_ - kk * zf)) <= 1e-8 * abs(kk) * np.max(np.abs(zf)) + 1e-12 * abs(kw_["i_dark"] * R):
+            want_k = np.sqrt(sig2) * R
+            check(abs(kk / want_k - 1) <= 1e-8, f"{nm_}-sigma!=documented", f"{nm_}: noise = {kk:.9e} * filtered unit Gaussians, expected sigma*R_load = {want_k:.9e} (ratio {kk / want_k:.9f}); "
+                  f"T={T} Fn={Fn} R_load={R} fs={fs:.4g} r={r} i_dark={idark}")
+            scale_cls.append(f"{nm_}-scale-exact")
+        else:
+            scale_cls.append(f"{nm_}-scale-skipped")
     # exact composition of selections under one seed (same RNG draw order: thermal first, then shot)
     A, TH, SH, TS = (pd(include_noise=s).noise - dark for s in ("ase-only", "thermal-only", "shot-only", "thermal-shot"))
     comp = {"all": A + TS, "ase-thermal": A + TH, "ase-shot": A + SH}
@@ -180,7 +200,7 @@ def e_det(c):
     g.verify()
     g.no_alias([("PD.signal", y.signal), ("PD.noise", y.noise)])
     g.release()
-    return {"nontrivial": npol == 2 and nz is not None, "classes": [f"pol{npol}", "optnoise" if nz is not None else "clean", c["sel"], "cw" if c["cw"] else "random", c["gv"]["form"]]}
+    return {"nontrivial": npol == 2 and nz is not None, "classes": [f"pol{npol}", "optnoise" if nz is not None else "clean", c["sel"], "cw" if c["cw"] else "random", c["gv"]["form"]] + scale_cls}
 
 
 s_err = st.fixed_dictionaries({"what": st.sampled_from(["r0", "r-neg", "r>1", "r-type", "T-neg", "T-type", "R-neg", "R-type", "sel-type", "sel-unknown", "input"]),
